@@ -102,7 +102,7 @@ func lowerOpt() []resource.Option {
 // change a title, not more). What the model's own Create / Add files under a key still carries that key.
 var restrictW bool
 
-var restrictable = map[string]bool{"electric.ListModes": true, "hail.ListHails": true, "publication.ListPublications": true, "vending.ListConsumables": true, "vending.ListInventory": true}
+var restrictable = map[string]bool{"parent.ListChildren": true, "electric.ListModes": true, "hail.ListHails": true, "publication.ListPublications": true, "vending.ListConsumables": true, "vending.ListInventory": true}
 
 func collOpt(m proto.Message, field string) []resource.Option {
 	o := lowerOpt()
@@ -193,8 +193,16 @@ var listers = []lister{
 		}, sorted(got)
 	}},
 	{"parent.ListChildren", func(ids []string) (func(int32, string) (page, error), []string) {
-		m := parentpb.NewModel()
-		for _, id := range ids {
+		var popts []resource.Option
+		if restrictW {
+			popts = append(popts, resource.WithWritablePaths(&traits.Child{}, "traits"))
+		}
+		m := parentpb.NewModel(popts...)
+		for i, id := range ids {
+			if restrictW && i%2 == 1 {
+				m.AddChildTrait(id, "smartcore.traits.OnOff") // the other way a child comes to be
+				continue
+			}
 			m.AddChild(&traits.Child{Name: id})
 		}
 		s := parentpb.NewModelServer(m)
